@@ -14,7 +14,8 @@ Clause(e) ==
          (IF e.got = "raised" THEN "Accessor.raised"
           ELSE IF e.got # e.expect THEN "Accessor.agreesWithTyping"
           ELSE IF e.again # e.got THEN "Accessor.stable" ELSE "")
-    [] e.ev = "spelling" -> (IF AllSame(e.answers) THEN "" ELSE "SpellingFree")
+    \* spellings of one type get one answer -- wherever the predicate is asserted at all (Def # "?") for every spelling
+    [] e.ev = "spelling" -> (IF (\E i \in 1..Len(e.fs) : Def(e.p, e.fs[i]) = "?") \/ AllSame(e.answers) THEN "" ELSE "SpellingFree")
     [] e.ev = "instantiable" -> (IF e.isclass /\ e.instantiable /\ e.rightkind THEN "" ELSE "OriginOfCollectionIsInstantiable")
     [] OTHER -> "UNKNOWN-EVENT"
 
